@@ -42,6 +42,20 @@ CHECKS = {
         'CPython int/float/str semantics are the ground truth for '
         'number x number and string x string results; NaN/inf excluded',
         'DESIGN.md section 2, C15'),
+    'C20': (
+        'Hypothesis-generated datetimes/offsets/timespans/timestamps and host '
+        'tz objects; law checks against exact integer-microsecond instant '
+        'arithmetic',
+        'Generated-input search over 8 law families (timestamp round trips, '
+        'utc, add/subtract inverses, instant equality and ordering across '
+        'offsets, unit properties, naive-as-UTC twins over 31 probes), values '
+        'built in the expression and bound as host objects (dateutil '
+        'tzoffset/tzutc, datetime.timezone, naive). Oracle: Python aware '
+        'datetime arithmetic reduced to exact integer microseconds. Sampled, '
+        'not exhaustive.',
+        'CPython datetime arithmetic is the ground truth for instants; float '
+        'tolerances as stated in the evidence assumptions',
+        'DESIGN.md section 2, C20'),
     'C03': (
         'exhaustive short token sequences + Hypothesis token soups / '
         'mutations / unicode text against a validity predicate',
